@@ -282,7 +282,7 @@ PROPS['C20'] = dict(
 )
 
 PROPS['C03'] = dict(
-    units=['k_tok', 'k_dec', 'k_enc'], level='proof', design_ref='6/C03',
+    units=['k_tok', 'k_dec', 'k_enc', 'k_send'], level='proof', design_ref='6/C03',
     technique='CBMC dfcc function contracts with loop contracts on MessageBase::extract_element(const char*, unsigned, char*, char*) and extract_element_fixed_width (clang AST of message.hpp), '
               'and the three tokeniser calls of MessageBase::extract_header checked against the callee contract with --replace-call-with-contract (call-site precondition obligations)',
     text='Tokeniser safety (proved, unbounded in the input length up to 8192 by loop contracts): given output buffers of input length + 1 bytes, extract_element reads only inside the input, writes only '
@@ -292,7 +292,8 @@ PROPS['C03'] = dict(
          'three calls (they were refuted before fix b253198: stack-buffer-overflow from a 59-byte input, ASan); FIXReader::read\'s two calls are checked in C15 (fix 363a513). '
          'Encode side: Message::encode(f8String&) (from the clang AST) hands Message::encode(char**) a stack buffer of FIX8_MAX_MSG_LENGTH + HEADER_CALC_OFFSET bytes, while that function needs '
          'HEADER_CALC_OFFSET + all field bytes + 8 (K-enc proves that room sufficient and the last byte necessary): KNOWN FINDING -- nothing bounds the field values, a NewOrderSingle with a '
-         '10000-byte Text overflows the stack (ASan); Session::send_process has the same buffer. '
+         '10000-byte Text overflows the stack (ASan); Session::send_process has the same buffer and the same KNOWN FINDING (order with a 20000-byte Text through the real send_process: SIGSEGV); '
+         'messages whose fields render to at most FIX8_MAX_MSG_LENGTH - 8 bytes fit in both (proved). '
          'NOT decided: the tokeniser call sites in MessageBase::decode / decode_group (2048-byte buffers against fields of up to the message length), '
          'Message::factory / decode as a whole (totality, exception types), the encode side (Message::encode(f8String&) into a fixed stack buffer, Session::send_process).',
     note='only the two char* tokenisers and extract_header\'s call sites are under contract; isdigit (C locale), memcpy (k-witness model), std::string data()/size() ASSUMED',
@@ -653,12 +654,13 @@ def _replay_k_seq(oid, inputs, trace, wd):
     exe = _rp.build_native(os.path.join(_rp.VERIF, 'replay', 'k_seq.cpp'), os.path.join(wd, 'replay_k_seq'), sanitize=False, timeout=900,
                            extra=['/repo/utests/mockConnection.cpp', '-I/repo/utests', '-L/repo/utests/.libs', '-lutest', '-L/repo/runtime/.libs', '-lfix8',
                                   '-Wl,-rpath,/repo/utests/.libs', '-Wl,-rpath,/repo/runtime/.libs'])
-    which = 'recovery' if 'does_not_advance' in oid else 'too_low' if 'too_low' in oid else 'seqnum_text' if 'C19.seqnum' in oid else 'send_custom' if 'custom_number_is_stored' in oid else 'send' if re.search(r'C1[67]\.|possdup_and_original', oid) else 'second_gap' if 'resend_pending' in oid else 'logon_gap' if 'logon_with_a_higher' in oid else 'tick' if 'C22' in oid else 'resend' if 'C18' in oid else 'gate'
+    which = 'send_big' if 'C03.send' in oid else 'recovery' if 'does_not_advance' in oid else 'too_low' if 'too_low' in oid else 'seqnum_text' if 'C19.seqnum' in oid else 'send_custom' if 'custom_number_is_stored' in oid else 'send' if re.search(r'C1[67]\.|possdup_and_original', oid) else 'second_gap' if 'resend_pending' in oid else 'logon_gap' if 'logon_with_a_higher' in oid else 'tick' if 'C22' in oid else 'resend' if 'C18' in oid else 'gate'
     os.makedirs(os.path.join(wd, 'seqscratch'), exist_ok=True)
     import subprocess
     p = subprocess.run([exe, 'search', which], cwd=os.path.join(wd, 'seqscratch'), stdout=subprocess.PIPE, stderr=subprocess.STDOUT, text=True, timeout=300)
-    return dict(steps=[dict(kind='native session history (%s) through the real Session::process with the utests mock connection' % which, rc=p.returncode, output=p.stdout[-1500:])],
-                reproduced=p.returncode == 1)
+    return dict(steps=[dict(kind='native session history (%s) through the real Session::process / send_process with the utests mock connection' % which, rc=p.returncode,
+                            killed_by_signal=(-p.returncode if p.returncode < 0 else None), output=p.stdout[-1500:])],
+                reproduced=p.returncode == 1 or p.returncode < 0)
 
 
 def _replay_k_tok(oid, inputs, trace, wd):
